@@ -106,6 +106,10 @@ def gen_case(draw):
         b['por'] = draw(POR)
         if draw(BOOL):
             b['nseq'], b['nadd'] = draw(NSEQ), draw(NADD)
+            # the two are separate optional fields of the record: either may be there without the other
+            one = draw(st.integers(0, 5))
+            if one == 0: b['nseq'] = None
+            elif one == 1: b['nadd'] = None
         else:
             b['nseq'], b['nadd'] = None, None
         if toughreact and draw(st.integers(0, 3)) > 0:
@@ -242,6 +246,7 @@ def run_gen(case, R):
     if quirk: R.label('quirk-name')
     if any(b['por'] is None for b in blocks): R.label('porosity-absent')
     if any(b['nseq'] is not None for b in blocks): R.label('nseq-present')
+    if any((b['nseq'] is None) != (b['nadd'] is None) for b in blocks): R.label('nseq-nadd:one-without-the-other')
     R.nontrivial(bool(blocks) and (neg or e3 or nv > 4 or case['toughreact'] or keep or quirk))
     exp = [expected_after_lib_write(b) for b in blocks]
     # sanity of the generator: repaired names distinct
